@@ -1,4 +1,5 @@
 import Robotools.Props.C03
+import Robotools.Props.C01Dist
 #print axioms Robotools.C03.step_safe
 #print axioms Robotools.C03.step_cfg
 #print axioms Robotools.C03.step_wf
@@ -15,3 +16,7 @@ import Robotools.Props.C03
 #print axioms Robotools.RP.compile_safe
 #print axioms Robotools.RP.within_compile
 #print axioms Robotools.RP.recs_within_exec
+#print axioms Robotools.C01D.abort_safe_dist
+#print axioms Robotools.C01D.step_safeD
+#print axioms Robotools.Dist.safe_compileDistribute
+#print axioms Robotools.Dist.compileRD_cases
